@@ -150,5 +150,14 @@ func specs() []*spec {
 			Model:          []string{"PinTracker and PeerMonitor RPC services (recording)", "fault-injecting in-memory datastore"},
 			Assumptions:    []string{"which value wins for concurrent writes to one CID is not prescribed, only that mutually trusting replicas agree", "after an injected datastore failure an accepted operation may be delayed, not lost once everything is healed and quiet"},
 		},
+		{
+			ID: "C13", Harness: "addersim", Level: "exploration",
+			Batch: 20, QuickSecs: 40, ThoroughSecs: 900, PlanTimeoutS: 60,
+			RequiredProbes: []string{"adds_succeeded", "adds_failed", "content_read_back", "single_pin_checked", "sharded_pins_checked", "importer_reference_checked", "indirect_shard_dag", "blockput_ipfs_error", "destination_partitioned", "cluster_pin_failed", "block_allocate_failed"},
+			Rule:           "plan = one add of a generated file tree (empty files, sizes at chunk-1/chunk/chunk+1/multiples, nested and wide directories, hidden entries, occasionally > 5984 blocks in one shard) with generated import parameters (size-N and rabin chunkers, balanced|trickle, raw leaves, CID version, sha2-256|sha2-512|blake2b-256, wrap, hidden, local, factor pair, sharding with shard sizes from 3 blocks to everything) on 1-4 destination peers, with faults: BlockPut fails at block k on destination d as an IPFS error, or the link to d is cut at block k (RPC error), the same block fails everywhere, the k-th BlockAllocate or Cluster.Pin fails. Non-trivial = the add ran and >=1 fault fired; distinct = distinct canonical trace digest.",
+			Real:           []string{"adder (Adder.FromFiles, format selection, wrap, Finalize)", "adder/ipfsadd (importer pipeline over MFS)", "adder/single and adder/sharding DAG services (ingestBlock, flushCurrentShard, shard.Flush, makeDAG)", "adder.BlockAdder multi-destination put via gorpc MultiCall over libp2p basic hosts on mocknet", "go-unixfs importer / reader, go-merkledag, go-ipld-cbor (reference and read-back)"},
+			Model:          []string{"Cluster.BlockAllocate / Cluster.Pin RPC service (recording, can fail)", "IPFSConnector.BlockPut RPC service per destination (per-destination block stores, per-(block,destination) fault)"},
+			Assumptions:    []string{"reference root = the same tree through the adder's importer on a plain in-memory DAG service, and for single files the go-unixfs importer called directly", "the file-tree/parameter dimension is input generation; the fault and multi-destination dimensions are what the simulator adds"},
+		},
 	}
 }
